@@ -1,11 +1,16 @@
 #!/bin/sh
 # Offline build of the framework: regenerate coq/Gen from /repo, full .vo build of the Coq development.
+# Files of properties that are not (yet) claimed in MANIFEST.json may fail without failing the setup (-k);
+# every claimed property's Props/Cnn.vo must have been built.
 cd "$(dirname "$0")" || exit 2
 export PYTHONHASHSEED=0 PYTHONDONTWRITEBYTECODE=1
 /venv/bin/python -c '
-import sys
+import json, os, sys
 from harness import translate, common
 print("translators:", translate.regenerate())
-rc, out = common.coq_make([])
-print(out[-1500:])
-sys.exit(rc)'
+rc, out = common.coq_make(["-k"])
+print(out[-1200:])
+claimed = [c["property_id"] for c in json.load(open("MANIFEST.json"))["checks"]]
+missing = [p for p in claimed if not os.path.exists(os.path.join(common.COQ, "Props", p + ".vo"))]
+print("claimed:", claimed, "missing:", missing)
+sys.exit(1 if missing else 0)'
